@@ -190,6 +190,8 @@ def shapes(k, nmax=3):
     out.append(("reuse", [("root",), ("add", 0, 0), ("add", 0, k - 1), ("remove", 0, 0), ("add", 2, 0)]))
     # a node that got a child and lost it again: it must be a terminal again (leaf flag, terminal iterators)
     out.append(("shrunk", [("root",), ("add", 0, k - 1), ("add", 1, 0), ("remove", 1, 0)]))
+    # a hole in the middle of the arena: live indices {0, 2}, so that len() - index is smaller than the subtree below index 2
+    out.append(("hole", [("root",), ("add", 0, 0), ("add", 0, k - 1), ("remove", 0, 0)]))
     return out
 
 
@@ -524,9 +526,9 @@ def select(prop, tier):
                     # quick tier: only the cheap arena-loop harnesses on the shrunk shape
                     hs += [h for h in gen_c13(k, sname, ops, thorough, 2) if h[0].endswith(("_index_iters", "_depth")) or "_num_nodes_" in h[0]]
                     continue
-                if not thorough and sname not in ("n3c_01", "n3s_01", "reuse"):
+                if not thorough and sname not in ("n3c_01", "n3s_01", "reuse", "hole"):
                     continue
-                if thorough and k == 3 and sname not in ("n3c_02", "n3c_21", "n3s_02", "n3s_21", "reuse", "n2_1", "shrunk"):
+                if thorough and k == 3 and sname not in ("n3c_02", "n3c_21", "n3s_02", "n3s_21", "reuse", "n2_1", "shrunk", "hole"):
                     continue
                 for h in gen_c13(k, sname, ops, thorough, 2):
                     # DfsEdge with two calls exhausts memory (62 GB after 15 min, measured) and three calls of any traversal
